@@ -16,6 +16,7 @@ func init() { register("C45", "other", c45) }
 // C45 An honest generator's block passes honest verification (agreement clauses).
 func c45(r *core.Report, p *core.Prog, thorough bool) {
 	c45Cost(r, p)
+	c45Batches(r, p)
 	r.Explain = "Decided (agreement between the generator's admission and the verifier's checks, structure only): the verifier rejects a transaction whose creation time is outside WithinTime(block creation date, txn creation date, TXN_TIME_TOLERANCE) (ValidateWrtTimeForBlock, called from ValidateTransactions with b.CreationDate); the generator's validateTransaction leaves every exit that is not the ErrNotTimeTolerant sentinel only behind the very same predicate with the same tolerance constant and the generated block's creation date, and the packing closure appends to b.Txns only where that result is known not to be ErrNotTimeTolerant / PastTransaction / FutureTransaction; the nonce window the generator admits (txn.Nonce - state.Nonce neither > 1 nor < 1, or Nonce == 1 for an unknown client) is the one execution requires; a transaction is appended only after mc.UpdateState — the function the verifier's ComputeState also applies — returned no error, once per key (txnMap test before, txnMap set with the append). Not decided: equality of the resulting state roots (C06 and run time), the block-cost bound, built-in transactions."
 	r.Rule("C45.time-verifier", "ValidateWrtTimeForBlock: success exits dominated by WithinTime(ts, t.CreationDate, TXN_TIME_TOLERANCE); ValidateTransactions passes b.CreationDate as ts")
 	r.Rule("C45.time-generator", "validateTransaction: every exit is dominated by WithinTime(b.CreationDate, txn.CreationDate, TXN_TIME_TOLERANCE) == true or returns the ErrNotTimeTolerant sentinel")
@@ -61,7 +62,7 @@ func c45(r *core.Report, p *core.Prog, thorough bool) {
 			n++
 			ok := false
 			for _, c := range boolCallFacts(ret.Block(), within, true) {
-				if c == wv {
+				if c.Call == wv {
 					ok = true
 				}
 			}
@@ -103,7 +104,7 @@ func c45(r *core.Report, p *core.Prog, thorough bool) {
 	for _, ret := range core.Returns(vt) {
 		inTol := false
 		for _, c := range boolCallFacts(ret.Block(), within, true) {
-			if c == wg {
+			if c.Call == wg {
 				inTol = true
 			}
 		}
@@ -352,4 +353,161 @@ func c45Cost(r *core.Report, p *core.Prog) {
 		}
 	}
 	r.Check(okV, "C45.cost", "VerifyBlock:rejects-only-above-limit", p.Pos(vb.Pos()), "the verifier's bound (cost > limit rejects) is implied by the generator's (sum < limit admits)")
+}
+
+// c45Batches: the verifier's batched validation waits for exactly as many results as it
+// starts workers. The launching loop steps `start` from 0 by the batch size S while
+// start < L and starts one worker per iteration, i.e. ceil(L/S) workers; the collector's
+// bound must be that number in a recognised form: q = L/S with +1 exactly under q*S < L
+// (or L%S != 0), (L+S-1)/S, or a counter incremented once per launch.
+func c45Batches(r *core.Report, p *core.Prog) {
+	const rule = "C45.batches-awaited"
+	r.Rule(rule, "ValidateTransactions: the collector loop awaits N results where N is the ceiling of len(b.Txns)/batch size — the number of workers the launching loop (start += batch size while start < len(b.Txns)) starts; an honest block whose size is a multiple of the batch size must not wait for a worker that was never started")
+	vt := p.Func("(*" + pkgMiner + ".Chain).ValidateTransactions")
+	if vt == nil {
+		r.Unresolved(rule, "ValidateTransactions")
+		return
+	}
+	var F *ssa.Function
+	var goIn *ssa.Go
+	fns := append([]*ssa.Function{vt}, vt.AnonFuncs...)
+	for _, f := range fns {
+		for _, b := range f.Blocks {
+			for _, in := range b.Instrs {
+				if g, ok := in.(*ssa.Go); ok && len(core.LoopsContaining(f, b)) > 0 {
+					F, goIn = f, g
+				}
+			}
+		}
+	}
+	if F == nil {
+		r.Fail(rule, "ValidateTransactions:launch-loop", p.Pos(vt.Pos()), "no loop starting validation workers found (shape not recognised)")
+		return
+	}
+	launch := core.LoopsContaining(F, goIn.Block())[0]
+	hdrCond := func(l *core.Loop) *ssa.BinOp {
+		ifi, ok := l.Header.Instrs[len(l.Header.Instrs)-1].(*ssa.If)
+		if !ok {
+			return nil
+		}
+		bo, _ := ifi.Cond.(*ssa.BinOp)
+		return bo
+	}
+	step := func(l *core.Loop, ph *ssa.Phi) ssa.Value {
+		for i, e := range ph.Edges {
+			if l.Body[l.Header.Preds[i]] {
+				if bo, ok := e.(*ssa.BinOp); ok && bo.Op == token.ADD && bo.X == ssa.Value(ph) {
+					return bo.Y
+				}
+			}
+		}
+		return nil
+	}
+	lc := hdrCond(launch)
+	var L, S ssa.Value
+	if lc != nil && lc.Op == token.LSS {
+		if ph, ok := lc.X.(*ssa.Phi); ok && ph.Block() == launch.Header {
+			L, S = lc.Y, step(launch, ph)
+		}
+	}
+	if !r.Check(L != nil && S != nil, rule, "ValidateTransactions:launch-loop", p.Pos(goIn.Pos()), "workers are started by `for start := 0; start < L; start += S`") {
+		return
+	}
+	same := func(a, b ssa.Value) bool {
+		if cv, ok := a.(*ssa.Convert); ok {
+			a = cv.X
+		}
+		if cv, ok := b.(*ssa.Convert); ok {
+			b = cv.X
+		}
+		return a == b || (describe(a) != "" && describe(a) == describe(b))
+	}
+	// collector: the loop with a select/receive, bounded by count < N, count++
+	var N ssa.Value
+	for _, l := range core.Loops(F) {
+		if l == launch {
+			continue
+		}
+		hasRecv := false
+		for b := range l.Body {
+			for _, in := range b.Instrs {
+				switch x := in.(type) {
+				case *ssa.Select:
+					hasRecv = true
+				case *ssa.UnOp:
+					if x.Op == token.ARROW {
+						hasRecv = true
+					}
+				}
+			}
+		}
+		c := hdrCond(l)
+		if !hasRecv || c == nil || c.Op != token.LSS {
+			continue
+		}
+		if ph, ok := c.X.(*ssa.Phi); ok && ph.Block() == l.Header {
+			if k, isK := core.ConstInt(step(l, ph)); isK && k == 1 {
+				N = c.Y
+			}
+		}
+	}
+	if !r.Check(N != nil, rule, "ValidateTransactions:collector-loop", p.Pos(F.Pos()), "results are awaited by `for count := 0; count < N; count++ { select … }`") {
+		return
+	}
+	isQuot := func(v ssa.Value) bool {
+		bo, ok := v.(*ssa.BinOp)
+		return ok && bo.Op == token.QUO && same(bo.X, L) && same(bo.Y, S)
+	}
+	ok, why := false, "N = "+describe(N)+" is not a recognised ceiling of L/S"
+	switch x := N.(type) {
+	case *ssa.Phi:
+		// (a) counter of launches
+		if x.Block() == launch.Header {
+			if k, isK := core.ConstInt(step(launch, x)); isK && k == 1 {
+				ok = true
+			}
+		}
+		// (b) q, or q+1 under q*S < L / L%S != 0
+		if !ok && len(x.Edges) == 2 {
+			var q, q1 ssa.Value
+			var q1pred *ssa.BasicBlock
+			for i, e := range x.Edges {
+				if isQuot(e) {
+					q = e
+				} else if bo, isB := e.(*ssa.BinOp); isB && bo.Op == token.ADD && isQuot(bo.X) {
+					if k, isK := core.ConstInt(bo.Y); isK && k == 1 {
+						q1, q1pred = e, x.Block().Preds[i]
+					}
+				}
+			}
+			if q != nil && q1 != nil {
+				for _, f := range CmpFacts(q1pred) {
+					if m, isM := f.X.(*ssa.BinOp); isM && m.Op == token.MUL && f.Op == token.LSS && same(f.Y, L) &&
+						((isQuot(m.X) && same(m.Y, S)) || (isQuot(m.Y) && same(m.X, S))) {
+						ok = true
+					}
+					if m, isM := f.X.(*ssa.BinOp); isM && m.Op == token.REM && same(m.X, L) && same(m.Y, S) {
+						if k, isK := core.ConstInt(f.Y); isK && k == 0 && (f.Op == token.NEQ || f.Op == token.GTR) {
+							ok = true
+						}
+					}
+				}
+				if !ok {
+					why = "the extra worker is not counted exactly when a remainder batch exists (q*S < L)"
+				}
+			}
+		}
+	case *ssa.BinOp:
+		// (c) (L + S - 1) / S
+		if x.Op == token.QUO && same(x.Y, S) {
+			if sub, isS := x.X.(*ssa.BinOp); isS && sub.Op == token.SUB {
+				if k, isK := core.ConstInt(sub.Y); isK && k == 1 {
+					if add, isA := sub.X.(*ssa.BinOp); isA && add.Op == token.ADD && ((same(add.X, L) && same(add.Y, S)) || (same(add.X, S) && same(add.Y, L))) {
+						ok = true
+					}
+				}
+			}
+		}
+	}
+	r.Check(ok, rule, "ValidateTransactions:awaits-ceil(len/batch)", p.Pos(goIn.Pos()), "the number of awaited results equals the number of started workers; "+why)
 }
